@@ -144,6 +144,8 @@ def locate_slice(values, start, stop, step, issorted=False):
 
         if step is not None and step < 0:
             istart -= 1
+            if istart < 0:
+                return 0, 0 # no label at or before `start`: empty selection, do not wrap around
     else:
         istart = None
 
